@@ -413,6 +413,8 @@ class Check(PropertyCheck):
                 # unsolicited bytes behind a complete response, in the same segment vs. in a segment of their own, both
                 # before the next request is sent
                 c = X.gen_surplus_exchange(rng, split=True); c["keep_surplus"] = True
+                if "scuts" not in c:
+                    continue      # request k does not end where it was meant to: the split form is not available
                 if b"connect" in unhx(c["client_hex"]).lower():
                     continue      # same exclusion as below: CONNECT / tunnel payload is not C02's subject
                 if rng.chance(0.5):
